@@ -127,12 +127,18 @@ Definition expected_scan_sites : list row :=
      (DSeq [DF TString; DF TUUID]);
    mkRow "server/auth/auth.go:encryptionResponse#1"
      "p.Scan(&keyBytes, &encryptedVerifyToken)"
-     (DSeq [DF TByteArray; DF TByteArray])].
+     (DSeq [DF TByteArray; DF TByteArray]);
+   mkRow "bot/playerlist/playerlist.go:handlePlayerInfoUpdatePacket"
+     "{ r := bytes.NewReader(p.Data) action := pk.NewFixedBitSet(6) if _, err := action.ReadFrom(r); err != nil { return err } var length pk.VarInt if _, err := length.ReadFrom(r); err != nil { return err } for i := 0; i < int(length); i++ { var id pk.UUID if _, err := id.ReadFrom(r); err != nil { return err } player, ok := pl.PlayerInfos[uuid.UUID(id)] if !ok { player = new(PlayerInfo) pl.PlayerInfos[uuid.UUID(id)] = player } if action.Get(0) { var name pk.String var properties []user.Property if _, err := (pk.Tuple{&name, pk.Array(&properties)}).ReadFrom(r); err != nil { return err } player.GameProfile = GameProfile{ ID: uuid.UUID(id), Name: string(name), Properties: properties, } } if action.Get(1) { var chatSession pk.Option[sign.Session, *sign.Session] if _, err := chatSession.ReadFrom(r); err != nil { return err } if chatSession.Has { player.ChatSession = chatSession.Pointer() player.ChatSession.InitValidate() } else { player.ChatSession = nil } } if action.Get(2) { var gamemode pk.VarInt if _, err := gamemode.ReadFrom(r); err != nil { return err } player.Gamemode = int32(gamemode) } if action.Get(3) { var listed pk.Boolean if _, err := listed.ReadFrom(r); err != nil { return err } player.Listed = bool(listed) } if action.Get(4) { var latency pk.VarInt if _, err := latency.ReadFrom(r); err != nil { return err } player.Latency = int32(latency) } if action.Get(5) { var displayName pk.Option[chat.Message, *chat.Message] if _, err := displayName.ReadFrom(r); err != nil { return err } if displayName.Has { player.DisplayName = &displayName.Val } else { player.DisplayName = nil } } } return nil }"
+     (DSeq [DExt "FixedBitSet"; DLoop (DSeq [DF TUUID; DChoice 8 (DSeq [DSeq [DF TString; DAry (DSeq [DSeq [DF TString; DF TString; DOption (DF TString)]])]]) (DSeq []); DChoice 10 (DSeq [DOption (DSeq [DF TUUID; DSeq [DSeq [DF TLong; DF TByteArray; DF TByteArray]; DChoice 9 (DSeq [DFail "errors.New(""expect RSA public key"")"]) (DSeq [])]])]) (DSeq []); DChoice 11 (DSeq [DF TVarInt]) (DSeq []); DChoice 12 (DSeq [DF TBool]) (DSeq []); DChoice 13 (DSeq [DF TVarInt]) (DSeq []); DChoice 14 (DSeq [DOption (DExt "chat.Message")]) (DSeq [])])]);
+   mkRow "bot/playerlist/playerlist.go:handlePlayerInfoRemovePacket"
+     "{ r := bytes.NewReader(p.Data) var ( length pk.VarInt id pk.UUID ) if _, err := length.ReadFrom(r); err != nil { return err } for i := 0; i < int(length); i++ { if _, err := id.ReadFrom(r); err != nil { return err } delete(pl.PlayerInfos, uuid.UUID(id)) } return nil }"
+     (DSeq [DLoop (DSeq [DF TUUID])])].
 
 Definition expected_readfrom_sites : list row :=
   [mkRow "chat/sign.FilterMask"
      "{ var Type pk.VarInt if n, err = Type.ReadFrom(r); err != nil { return } f.Type = byte(Type) if f.Type == 2 { var n1 int64 n1, err = f.Mask.ReadFrom(r) n += n1 } return }"
-     (DSeq [DF TVarInt; DChoice 8 (DSeq [DF TBitSet]) (DSeq [])]);
+     (DSeq [DF TVarInt; DChoice 15 (DSeq [DF TBitSet]) (DSeq [])]);
    mkRow "chat/sign.HistoryMessage"
      "{ n, err = (*pk.UUID)(&p.Sender).ReadFrom(r) if err != nil { return } n2, err := (*pk.ByteArray)(&p.Signature).ReadFrom(r) return n + n2, err }"
      (DSeq [DF TUUID; DF TByteArray]);
@@ -141,13 +147,13 @@ Definition expected_readfrom_sites : list row :=
      (DSeq [DSeq [DF TVarInt; DExt "FixedBitSet"]]);
    mkRow "chat/sign.PackedMessageBody"
      "{ var timestamp pk.Long n, err = pk.Tuple{ (*pk.String)(&m.PlainMsg), &timestamp, (*pk.Long)(&m.Salt), pk.Array(&m.LastSeen), }.ReadFrom(r) m.Timestamp = time.UnixMilli(int64(timestamp)) return }"
-     (DSeq [DSeq [DF TString; DF TLong; DF TLong; DAry (DSeq [DF TVarInt; DChoice 9 (DSeq [DRaw 256]) (DSeq [])])]]);
+     (DSeq [DSeq [DF TString; DF TLong; DF TLong; DAry (DSeq [DF TVarInt; DChoice 16 (DSeq [DRaw 256]) (DSeq [])])]]);
    mkRow "chat/sign.PackedSignature"
      "{ n1, err := (*pk.VarInt)(&p.ID).ReadFrom(r) if err != nil { return n1, err } if p.ID == -1 { if p.Signature == nil { p.Signature = new(Signature) } n2, err := r.Read(p.Signature[:]) return n1 + int64(n2), err } else { p.Signature = nil return n1, err } }"
-     (DSeq [DF TVarInt; DChoice 10 (DSeq [DRaw 256]) (DSeq [])]);
+     (DSeq [DF TVarInt; DChoice 17 (DSeq [DRaw 256]) (DSeq [])]);
    mkRow "chat/sign.Session"
      "{ n1, err := ((*pk.UUID)(&s.SessionID)).ReadFrom(r) if err != nil { return n1, err } n2, err := s.PublicKey.ReadFrom(r) return n1 + n2, err }"
-     (DSeq [DF TUUID; DSeq [DSeq [DF TLong; DF TByteArray; DF TByteArray]; DChoice 11 (DSeq [DFail "errors.New(""expect RSA public key"")"]) (DSeq [])]]);
+     (DSeq [DF TUUID; DSeq [DSeq [DF TLong; DF TByteArray; DF TByteArray]; DChoice 18 (DSeq [DFail "errors.New(""expect RSA public key"")"]) (DSeq [])]]);
    mkRow "chat/sign.Signature"
      "{ n2, err := r.Read(s[:]) return int64(n2), err }"
      (DSeq [DRaw 256]);
@@ -216,7 +222,7 @@ Definition expected_readfrom_sites : list row :=
      (DSeq []);
    mkRow "level/component.Instrument"
      "{ return pk.Tuple{ &i.Type, pk.Opt{ Has: func() bool { return i.Type == 0 }, Field: pk.Tuple{ &i.SoundEvent, &i.UseDuration, &i.Range, }, }, }.ReadFrom(r) }"
-     (DSeq [DSeq [DF TVarInt; DChoice 12 (DSeq [DSeq [DSeq [DF TVarInt; DChoice 13 (DSeq [DF TString; DOption (DF TFloat)]) (DSeq [])]]; DF TFloat; DF TFloat]) (DSeq [])]]);
+     (DSeq [DSeq [DF TVarInt; DChoice 19 (DSeq [DSeq [DSeq [DF TVarInt; DChoice 20 (DSeq [DF TString; DOption (DF TFloat)]) (DSeq [])]]; DF TFloat; DF TFloat]) (DSeq [])]]);
    mkRow "level/component.IntangibleProjectile"
      "{ return 0, nil }"
      (DSeq []);
@@ -252,7 +258,7 @@ Definition expected_readfrom_sites : list row :=
      (DSeq [DExt "NBT"]);
    mkRow "level/component.SoundEvent"
      "{ return pk.Tuple{ &s.Type, pk.Opt{ Has: func() bool { return s.Type == 0 }, Field: pk.Tuple{ &s.SoundName, &s.FixedRange, }, }, }.ReadFrom(r) }"
-     (DSeq [DSeq [DF TVarInt; DChoice 14 (DSeq [DF TString; DOption (DF TFloat)]) (DSeq [])]]);
+     (DSeq [DSeq [DF TVarInt; DChoice 21 (DSeq [DF TString; DOption (DF TFloat)]) (DSeq [])]]);
    mkRow "level/component.StoredEnchantments"
      "{ return pk.Tuple{ pk.Array(&s.Enchantments), &s.ShowInTooltip, }.ReadFrom(r) }"
      (DSeq [DSeq [DAry (DSeq [DSeq [DF TVarInt; DF TVarInt]]); DF TBool]]);
@@ -276,7 +282,7 @@ Definition expected_readfrom_sites : list row :=
      (DSeq [DSeq [DF TString; DF TString; DOption (DF TString)]]);
    mkRow "yggdrasil/user.PublicKey"
      "{ var ( ExpiresAt pk.Long PubKey pk.ByteArray Signature pk.ByteArray ) n, err = pk.Tuple{ &ExpiresAt, &PubKey, &Signature, }.ReadFrom(r) if err != nil { return n, err } p.ExpiresAt = time.UnixMilli(int64(ExpiresAt)) pubKey, err := x509.ParsePKIXPublicKey(PubKey) if err != nil { return n, err } if key, ok := pubKey.(*rsa.PublicKey); !ok { return n, errors.New(""expect RSA public key"") } else { p.PubKey = key } p.Signature = Signature return n, nil }"
-     (DSeq [DSeq [DF TLong; DF TByteArray; DF TByteArray]; DChoice 15 (DSeq [DFail "errors.New(""expect RSA public key"")"]) (DSeq [])]);
+     (DSeq [DSeq [DF TLong; DF TByteArray; DF TByteArray]; DChoice 22 (DSeq [DFail "errors.New(""expect RSA public key"")"]) (DSeq [])]);
    mkRow "bot.DataPack"
      "{ n, err = (*pk.String)(&d.Namespace).ReadFrom(r) if err != nil { return n, err } n1, err := (*pk.String)(&d.ID).ReadFrom(r) if err != nil { return n + n1, err } n2, err := (*pk.String)(&d.Version).ReadFrom(r) return n + n1 + n2, err }"
      (DSeq [DF TString; DF TString; DF TString]);
@@ -285,5 +291,5 @@ Definition expected_readfrom_sites : list row :=
      (DSeq [DSeq [DF TString; DF TByteArray; DF TByteArray]]);
    mkRow "bot/screen.Slot"
      "{ var componentsAdd, componentsRemove pk.VarInt return pk.Tuple{ &s.Count, pk.Opt{ Has: func() bool { return s.Count > 0 }, Field: pk.Tuple{ &s.ID, &componentsAdd, &componentsRemove, }, }, }.ReadFrom(r) }"
-     (DSeq [DSeq [DF TVarInt; DChoice 16 (DSeq [DF TVarInt; DF TVarInt; DF TVarInt]) (DSeq [])]])].
+     (DSeq [DSeq [DF TVarInt; DChoice 23 (DSeq [DF TVarInt; DF TVarInt; DF TVarInt]) (DSeq [])]])].
 
